@@ -2018,7 +2018,9 @@ impl Compiler {
                 [] => return self.error(ErrorKind::MissingImportItem),
                 [single_item] => self.push_op(Copy, &[result_register, *single_item]),
                 _ => {
-                    self.push_op(SequenceStart, &[imported.len() as u8]);
+                    // The size hint is encoded as a variable-length integer
+                    self.push_op(SequenceStart, &[]);
+                    self.push_var_u32(imported.len() as u32);
                     for item in imported.iter() {
                         self.push_op(SequencePush, &[*item]);
                     }
